@@ -222,6 +222,17 @@ impl Stats {
     }
 }
 
+/// truncates a string at a char boundary
+pub fn clip(s: &mut String, max: usize) {
+    if s.len() > max {
+        let mut end = max;
+        while !s.is_char_boundary(end) {
+            end -= 1;
+        }
+        s.truncate(end);
+    }
+}
+
 pub fn hash64(bytes: &[u8]) -> u64 {
     // FNV-1a 64
     let mut h: u64 = 0xcbf29ce484222325;
